@@ -6,8 +6,16 @@ claim("C03", "other",
       "Trusted: clang 14 front end + tbfscan exporter, OpenMP data-sharing semantics as implemented by g++ 12 (closure reached through firstprivate(__closure), confirmed by -fdump-tree-omplower and an ASan replay).",
       "capture-lifetime / dependence-vs-effect / submission-summary rules over the clang AST (libTooling)", "DESIGN.md §2 C03")
 
+claim("C12", "other",
+      "Decides for every executor class (sequential, target/source, OpenMP x2, periodic top trees; thorough: Specx x2, StarPU x2 through declaration stubs): "
+      "flag->stage map (each stage guarded by exactly its own bit, flags distinct single bits, composite masks = documented unions), stage order, "
+      "level-loop intervals normalised with sympy to [U,H-2]/[U,H-1] with U=max(0,arg), P2M/L2P guard H>U, and the write set of each stage from the wrapper's slot-level effect summary. "
+      "Together these are the structural content of 'staged runs equal a full run and write only their outputs'; histories are covered because no state other than the tree survives a stage.",
+      "Trusted: clang 14 + tbfscan, the frozen operator role table (which kernel slot is the output), sympy polynomial normal form; Specx/StarPU only through declaration stubs.",
+      "flag/stage/level-interval/write-set summaries from the clang AST, sympy interval normal forms", "DESIGN.md §2 C12")
+
 _todo = "check not built yet in this round (see DESIGN.md §7 build order)"
-for p in ["C02","C06","C08","C09","C10","C11","C12","C13","C14","C15","C17","C18","C19","C20"]:
+for p in ["C02","C06","C08","C09","C10","C11","C13","C14","C15","C17","C18","C19","C20"]:
     NA[p] = _todo
 NA["C01"] = "exactly-once is a counting statement over all particle sets, heights, dimensions and groupings; no lint/effect/type argument bounds the list-builder arithmetic. Structural prerequisites are decided under C02/C03/C08/C11/C12."
 NA["C04"] = "bound on a floating-point truncation error over all positions/heights/orders: nothing about it is visible in the shape of the code (accumulate clause is under C08, code conventions under C11)."
